@@ -103,6 +103,9 @@ class Term:
         self.maxrow = 0          # largest row the cursor visited / wrote (oracle only)
         self.written = set()     # rows in which a cell was written (oracle only)
         self.layers = []
+        # events on which the model's two debatable choices would be observable (statistics only):
+        self.nz_erase = 0        # EL / ED / scroll-fill executed with a pen other than ESC[0m (background-colour-erase matters)
+        self.aw_text = 0         # text written while autowrap is on (deferred vs immediate wrap could matter)
 
     def _blank_other_half(self, y, x):
         g, p, k = self.get(y, x)
@@ -117,6 +120,8 @@ class Term:
         if w < 1 or w > 2:
             self.undef = 1
             return
+        if self.aw:
+            self.aw_text += 1
         if self.pending and self.aw:
             self.cx = 0
             self.cy += 1
@@ -177,9 +182,11 @@ class Term:
             self.cx = max(0, self.cx - n)
             self.pending = 0
         elif k == 9:
+            self.nz_erase += 1 if self.pen != 0 else 0
             self.erase_line_from_cursor()
             self.written.add(self.cy)
         elif k == 10:
+            self.nz_erase += 1 if self.pen != 0 else 0
             self.erase_line_from_cursor()
             for (y, x) in list(self.grid):
                 if y > self.cy:
@@ -220,6 +227,7 @@ class Term:
         """LF on the last row: every row up to the last moves up by one (rows above
         the origin exist: scrollback), the last row becomes blank in the current pen."""
         b = self.rows - 1
+        self.nz_erase += 1 if self.pen != 0 else 0
         new = {}
         for (y, x), v in self.grid.items():
             if y <= b:
